@@ -36,3 +36,16 @@ Definition exQ_check (maxshape : Q) : bool :=
 
 Lemma exQ_ok : exQ_check 1000 = true /\ exQ_check 20 = true.
 Proof. split; vm_compute; reflexivity. Qed.
+
+(** C05 non-vacuity: with [max_shape = 20] the third projection result (shape 31) is capped:
+    the parent's posterior has shape exactly 20 and a positive rate, samples stay (0,0) *)
+Definition exQ_capped : bool :=
+  match exQ_run 20 with
+  | ([s], true, _, O) =>
+      let st := st_of_lists QNum s in
+      Qeq_bool (fst (post st 2%nat) + 1) 20 && negb (Qle_bool (snd (post st 2%nat)) 0)
+      && viszero (post st 0%nat)
+  | _ => false
+  end.
+Lemma exQ_capped_ok : exQ_capped = true.
+Proof. vm_compute; reflexivity. Qed.
